@@ -115,13 +115,14 @@ func init() {
 				// the whole circuit compiled with gnark's real builders and solved with the real solver
 				// (the deployed configuration: CircuitFixed, all 28 rounds, R1CS, commit range checker)
 				cs = append(cs, fw.Case{ID: "compiled/r1cs/A_testdata/k=28/fixed", Kind: "compiled", P: map[string]any{"inst": "A_testdata", "k": 28, "wrapper": "fixed", "sys": "r1cs"}})
+				cs = append(cs, fw.Case{ID: "compiled/scs/A_testjson/k=5/verifier", Kind: "compiled", P: map[string]any{"inst": "A_testjson", "k": 5, "wrapper": "verifier", "sys": "scs"}})
 				if !ctx.Quick {
 					cs = append(cs, fw.Case{ID: "compiled/r1cs/A_testjson/k=28/verifier", Kind: "compiled", P: map[string]any{"inst": "A_testjson", "k": 28, "wrapper": "verifier", "sys": "r1cs"}})
 					cs = append(cs, fw.Case{ID: "compiled/r1cs/B_epoch_4RjX/k=28/verifier", Kind: "compiled", P: map[string]any{"inst": "B_epoch_4RjX", "k": 28, "wrapper": "verifier", "sys": "r1cs"}})
 					cs = append(cs, fw.Case{ID: "compiled/r1cs/B_random_CGZ/k=3/verifier", Kind: "compiled", P: map[string]any{"inst": "B_random_CGZ", "k": 3, "wrapper": "verifier", "sys": "r1cs"}})
 					cs = append(cs, fw.Case{ID: "compiled/scs/A_testdata/k=28/fixed", Kind: "compiled", P: map[string]any{"inst": "A_testdata", "k": 28, "wrapper": "fixed", "sys": "scs"}})
 					cs = append(cs, fw.Case{ID: "compiled/scs/B_epoch_CbAH/k=28/verifier", Kind: "compiled", P: map[string]any{"inst": "B_epoch_CbAH", "k": 28, "wrapper": "verifier", "sys": "scs"}})
-					cs = append(cs, fw.Case{ID: "compiled/scs/A_testjson/k=5/verifier", Kind: "compiled", P: map[string]any{"inst": "A_testjson", "k": 5, "wrapper": "verifier", "sys": "scs"}})
+					cs = append(cs, fw.Case{ID: "compiled/scs/B_random_CGZ/k=4/verifier", Kind: "compiled", P: map[string]any{"inst": "B_random_CGZ", "k": 4, "wrapper": "verifier", "sys": "scs"}})
 				}
 				cs = append(cs, fw.Case{ID: "gnark-control/A_testdata/k=1", Kind: "gnarkcontrol", P: map[string]any{"inst": "A_testdata", "k": 1}})
 				// one VerifierChip verifying several proofs in one circuit (state kept by any chip must not leak)
